@@ -95,6 +95,11 @@ func (mw *msgWriter) flateContextTakeover() bool {
 }
 
 func (c *Conn) writer(ctx context.Context, typ MessageType) (io.WriteCloser, error) {
+	// The type becomes the opcode of the first frame: anything but text and binary
+	// would put a continuation, a reserved or a control opcode, or reserved bits on the wire.
+	if typ != MessageText && typ != MessageBinary {
+		return nil, fmt.Errorf("invalid message type %v: must be MessageText or MessageBinary", int(typ))
+	}
 	err := c.msgWriter.reset(ctx, typ)
 	if err != nil {
 		return nil, err
